@@ -103,7 +103,7 @@ package funcs
 // is an error when the table has no row for it; any other name goes to the time library exactly
 // as written (the table is not consulted for names), and an unknown name is an error
 //@ func TimestampHandle
-//@ props C12
+//@ props C12 C01
 //@ safety off
 //@ ensures tz == "" ==> ncalls(time.LoadLocation) == 0
 //@ ensures tz != "" && (tz[0] == 43 || tz[0] == 45) && !dom(timezoneList, tz) ==> result1 != nil && ncalls(time.LoadLocation) == 0
@@ -112,3 +112,17 @@ package funcs
 //@ ensures ncalls(time.LoadLocation) == 1 && callres(time.LoadLocation, 0, 1) != nil ==> result1 != nil
 //@ ensures ncalls(parseDatePattern) <= 1 && (ncalls(parseDatePattern) == 1 ==> callarg(parseDatePattern, 0, 0) == value)
 //@ ensures ncalls(parseDatePattern) == 1 && tz != "" ==> callarg(parseDatePattern, 0, 1) == callres(time.LoadLocation, 0, 0)
+
+// the house layouts: each one is tried, in table order, with the caller's location, until one parses;
+// giving up means every layout of the table was tried (the regular expressions of the table are
+// documentation, not a filter)
+//@ func parseDatePattern
+//@ props C12 C01
+//@ ensures[C12] forall k mathint :: 0 <= k && k < ncalls(time.ParseInLocation) ==> callarg(time.ParseInLocation, k, 0) == datePattern[k].goFmt && callarg(time.ParseInLocation, k, 2) == loc && (!datePattern[k].defaultYear ==> callarg(time.ParseInLocation, k, 1) == old(value))
+//@ ensures[C12] forall k mathint :: 0 <= k && k < ncalls(time.ParseInLocation) - 1 ==> callres(time.ParseInLocation, k, 1) != nil
+//@ ensures[C12] result1 != nil ==> ncalls(time.ParseInLocation) == tomath(len(datePattern)) && (forall k mathint :: 0 <= k && k < ncalls(time.ParseInLocation) ==> callres(time.ParseInLocation, k, 1) != nil)
+//@ ensures[C12] result1 == nil ==> ncalls(time.ParseInLocation) >= 1 && callres(time.ParseInLocation, ncalls(time.ParseInLocation) - 1, 1) == nil
+//@ loop 1
+//@ invariant[C12] ncalls(time.ParseInLocation) == tomath(rangeindex) + 1
+//@ invariant[C12] forall k mathint :: 0 <= k && k < ncalls(time.ParseInLocation) ==> callres(time.ParseInLocation, k, 1) != nil && callarg(time.ParseInLocation, k, 0) == datePattern[k].goFmt && callarg(time.ParseInLocation, k, 2) == loc && (!datePattern[k].defaultYear ==> callarg(time.ParseInLocation, k, 1) == old(value))
+//@ invariant[C12] valueCpy == old(value) && loc == old(loc)
